@@ -397,6 +397,60 @@ let wa_spec head toks obs =
       with Failure m -> "FAIL malformed-observable " ^ m
 
 (* ------------------------------------------------------------------ *)
+(* na: the outbound address selection (AddrSearch.new_address) on a scripted sequence of draws *)
+let na_parse head toks =
+  let used = Stdlib.List.concat_map (fun w ->
+      if Stdlib.String.length w > 2 && Stdlib.String.sub w 0 2 = "u=" then
+        Stdlib.List.filter_map (fun g -> if g = "" then None else Some (int_of_string g))
+          (split_on ',' (Stdlib.String.sub w 2 (Stdlib.String.length w - 2)))
+      else []) (Stdlib.List.tl head) in
+  let draws = Stdlib.List.filter (fun d -> d <> "") toks in
+  let parse d =
+    if d = "nil" then None else
+      match split_on '.' d with
+      | [g; pr] when Stdlib.String.length g >= 2 && g.[0] = 'g' && Stdlib.String.length pr = 2 ->
+        let gi = int_of_string (Stdlib.String.sub g 1 (Stdlib.String.length g - 1)) in
+        if gi < 0 || gi > 200 then failwith "bad draw" else
+        Some (gi, pr.[1] = 'r', pr.[0] = 'd')
+      | _ -> failwith "bad draw" in
+  (used, Stdlib.List.map (fun d -> (d, parse d)) draws)
+
+let na_model head toks =
+  match na_parse head toks with
+  | exception _ -> "BAD-INPUT"
+  | (used, draws) ->
+    let picks = Stdlib.List.map (fun (_, p) -> match p with
+        | None -> None
+        | Some (g, r, dp) -> Some { AddrSearch.c_group = n_of_int g; c_recent = r; c_default_port = dp }) draws in
+    let usedf g = Stdlib.List.mem (Z.to_int (zt_of_n g)) used in
+    match AddrSearch.new_address picks usedf with
+    | None -> "none"
+    | Some (i, _) -> let i = int_of_nat i in Printf.sprintf "%d:%s" i (fst (Stdlib.List.nth draws i))
+
+(* declarative oracle, independent of the model's recursion: the answer names the FIRST draw, among the first 100
+   and before the source runs dry, that is of a free group, not recently attempted unless 30 draws precede it, on
+   the default port unless 50 do; "none" iff there is no such draw *)
+let na_spec head toks obs =
+  match na_parse head toks with
+  | exception _ -> if obs = "BAD-INPUT" then "OK" else "FAIL malformed-observable"
+  | (used, draws) ->
+    let arr = Stdlib.Array.of_list draws in
+    let n = Stdlib.Array.length arr in
+    let dry = let rec go i = if i >= n then n else match snd arr.(i) with None -> i | Some _ -> go (i + 1) in go 0 in
+    let lim = min (min n 100) dry in
+    let ok i = match snd arr.(i) with
+      | None -> false
+      | Some (g, r, dp) -> not (Stdlib.List.mem g used) && (i >= 30 || not r) && (i >= 50 || dp) in
+    let first = let rec go i = if i >= lim then None else if ok i then Some i else go (i + 1) in go 0 in
+    (match first with
+     | None -> if obs = "none" then "OK" else "FAIL address-returned-that-the-filters-exclude " ^ obs
+     | Some i ->
+       let want = Printf.sprintf "%d:%s" i (fst arr.(i)) in
+       if obs = want then "OK"
+       else if obs = "none" then "FAIL no-address-although-a-candidate-passes want " ^ want
+       else "FAIL wrong-address want " ^ want ^ " got " ^ obs)
+
+(* ------------------------------------------------------------------ *)
 let split_case input =
   match split_on ';' input with
   | [] -> ([], [])
@@ -408,6 +462,7 @@ let model input =
   | ("cm" :: _ as head), toks -> cm_model head toks
   | ("wr" :: _ as head), toks -> wr_model head toks
   | ("wa" :: _ as head), toks -> wa_model head toks
+  | ("na" :: _ as head), toks -> na_model head toks
   | _ -> "BAD-INPUT"
 
 let spec input obs =
@@ -416,6 +471,7 @@ let spec input obs =
   | ("cm" :: _ as head), toks -> cm_spec head toks obs
   | ("wr" :: _ as head), toks -> wr_spec head toks obs
   | ("wa" :: _ as head), toks -> wa_spec head toks obs
+  | ("na" :: _ as head), toks -> na_spec head toks obs
   | _ -> if obs = "BAD-INPUT" then "OK" else "FAIL malformed-observable"
 
 let () = run_driver model spec
